@@ -361,6 +361,13 @@ func WorkerMain(h Harness, e WorkerEnv) int {
 					for _, x := range again.Violations {
 						got = append(got, x.Class+"|"+x.Signature+"|"+x.LogHash)
 					}
+					if dir := os.Getenv("VERIF_DEBUG_UNSTABLE"); strings.HasPrefix(dir, "/") {
+						_ = os.WriteFile(fmt.Sprintf("%s/unstable-w%d-spec.json", dir, e.Worker), raw, 0o644)
+						_ = os.WriteFile(fmt.Sprintf("%s/unstable-w%d-first.log", dir, e.Worker), []byte(mv.LogHash+"\n"+strings.Join(mv.Trace, "\n")), 0o644)
+						for _, x := range again.Violations {
+							_ = os.WriteFile(fmt.Sprintf("%s/unstable-w%d-again.log", dir, e.Worker), []byte(x.LogHash+"\n"+strings.Join(x.Trace, "\n")), 0o644)
+						}
+					}
 					if os.Getenv("VERIF_DEBUG_UNSTABLE") != "" {
 						for i := 0; i < 4; i++ {
 							r := h.Run(mspec)
@@ -369,6 +376,9 @@ func WorkerMain(h Harness, e WorkerEnv) int {
 								ks = append(ks, x.Class+"|"+x.Signature)
 							}
 							fmt.Fprintf(os.Stderr, "DEBUG-UNSTABLE rerun %d: %016x %v\n", i, r.LogHash, ks)
+						if dir := os.Getenv("VERIF_DEBUG_UNSTABLE"); strings.HasPrefix(dir, "/") && len(r.Violations) > 0 {
+							_ = os.WriteFile(fmt.Sprintf("%s/unstable-w%d-%d.log", dir, e.Worker, i), []byte(strings.Join(r.Violations[0].Trace, "\n")), 0o644)
+						}
 						}
 						fmt.Fprintf(os.Stderr, "DEBUG-UNSTABLE original violation: %s|%s hash %s detail %s\n", mv.Class, mv.Signature, mv.LogHash, mv.Detail)
 					}
